@@ -4,6 +4,7 @@ import (
 	"errors"
 	"fmt"
 	"regexp"
+	"runtime/debug"
 	"strings"
 	"sync"
 	"time"
@@ -120,6 +121,18 @@ type Session struct {
 	StopAfterErrors int `json:"stop_after_errors,omitempty"`
 	// Variant bookkeeping for enumerated faults
 	BaseEmitted int `json:"base_emitted,omitempty"`
+	// Holds is the sched-hold fault plan (C07): goroutines descheduled after a hook point.
+	Holds []HoldSpec `json:"holds,omitempty"`
+	State string     `json:"state,omitempty"` // C07: connection state at the time of Close
+}
+
+// HoldSpec deschedules goroutines of role Base for DurUS after they pass Point, with
+// probability Pct per visit.
+type HoldSpec struct {
+	Base  string `json:"base"`
+	Point string `json:"point"`
+	DurNS int64  `json:"dur_ns"`
+	Pct   int    `json:"pct"`
 }
 
 // OpRec is what one operation did.
@@ -186,6 +199,9 @@ type SessionRun struct {
 	N       *network.Driver
 	Leaked  []string
 	ResumeT time.Duration
+	// a concurrently running operation (C07 op-in-flight state)
+	Spawned   *OpRec
+	SpawnDone chan struct{}
 }
 
 // LogSink collects everything given to the user's loggers and to the channel log.
@@ -220,6 +236,17 @@ func buildDevice(ds *DevSpec) *peer.CLI {
 	d.NoisePct = ds.NoisePct
 
 	return d
+}
+
+// readDelay is the channel read delay (a "_rdns" hold entry carries sub-microsecond values).
+func (sc *Session) readDelay() time.Duration {
+	for _, h := range sc.Holds {
+		if h.Base == "_rdns" {
+			return time.Duration(h.DurNS)
+		}
+	}
+
+	return Micro(sc.ReadDelayUS)
 }
 
 func (sc *Session) connTimeout() time.Duration { return oddTimeout(Micro(sc.TimeoutOpsUS)) }
@@ -290,9 +317,22 @@ func StartSession(env *Env, sc *Session) (*SessionRun, <-chan struct{}) {
 		sr.Tr.SSHArgs = &transport.SSHArgs{PrivateKeyPassPhrase: sc.Passphrase}
 		impl = simnet.SSHT{T: sr.Tr}
 	}
-	rd := Micro(sc.ReadDelayUS)
+	rd := sc.readDelay()
 	// the callback reader loop has no sleep of its own; its poll quantum is a modelling parameter
 	env.K.PollQ = rd
+	if len(sc.Holds) > 0 {
+		hr := kernel.Stream(sc.SchedSeed, "hold")
+		holds := sc.Holds
+		env.K.HoldFn = func(base, point string) time.Duration {
+			for _, h := range holds {
+				if h.Base == base && h.Point == point && hr.IntN(100) < h.Pct {
+					return time.Duration(h.DurNS)
+				}
+			}
+
+			return 0
+		}
+	}
 	opts := []util.Option{
 		options.WithCustomTransport(impl),
 		options.WithReadDelay(rd),
@@ -355,9 +395,8 @@ func (sr *SessionRun) snap(rec *OpRec) {
 	rec.LastByteAtEnd = sr.Tr.LastByteTime()
 	rec.EmittedAtEnd = sr.Tr.Emitted()
 	rec.DevLineClean = sr.Dev.LineClean()
-	rec.DevMode = sr.Dev.Cur
-	rec.DevLogLen = len(sr.Dev.Log)
-	rec.WritesAtEnd = len(sr.Tr.Writes)
+	rec.DevMode, rec.DevLogLen = sr.Dev.State()
+	rec.WritesAtEnd = sr.Tr.NWrites()
 }
 
 func (sr *SessionRun) workload(env *Env) {
@@ -383,7 +422,7 @@ func (sr *SessionRun) workload(env *Env) {
 	recovered := false
 	for i := range sc.Ops {
 		op := &sc.Ops[i]
-		rec := OpRec{Kind: op.Kind, Start: k.Now(), WritesAtStart: len(sr.Tr.Writes)}
+		rec := OpRec{Kind: op.Kind, Start: k.Now(), WritesAtStart: sr.Tr.NWrites()}
 		if (sc.StopAfterErrors > 0 && errs >= sc.StopAfterErrors && op.Kind != "close") || (recovered && op.Kind == "callbacks") {
 			rec.Skipped = true
 			sr.Recs = append(sr.Recs, rec)
@@ -523,6 +562,32 @@ func (sr *SessionRun) do(env *Env, op *OpSpec, o []util.Option, rec *OpRec) {
 		}
 	case "idle":
 		time.Sleep(Micro(op.IdleUS))
+	case "inject":
+		// unsolicited device output (a log line), optionally delayed
+		sr.Tr.Inject([]simnet.Seg{{B: []byte(op.Cmd), Delay: Micro(op.IdleUS)}})
+	case "lose:eof":
+		sr.Tr.LoseNow("eof")
+	case "lose:readerr":
+		sr.Tr.LoseNow("readerr")
+	case "spawn":
+		// run the next-described operation (Cmd as a plain send) from a second caller goroutine
+		sub := OpSpec{Kind: op.Target, Cmd: op.Cmd, Lines: op.Lines}
+		sr.Spawned = &OpRec{Kind: sub.Kind, Start: env.K.Now()}
+		sr.SpawnDone = make(chan struct{})
+		go func() {
+			defer close(sr.SpawnDone)
+			defer func() {
+				if r := recover(); r != nil {
+					sr.Spawned.Panicked = true
+					env.Fail("panic-in-caller", PanicSite(string(debug.Stack())), "concurrent %s panicked: %v", sub.Kind, r)
+				}
+			}()
+			env.K.Enter("user2")
+			env.K.Yield("user2.start")
+			sr.do(env, &sub, nil, sr.Spawned)
+			sr.Spawned.End = env.K.Now()
+			sr.Spawned.Class = ErrClass(sr.Spawned.Err)
+		}()
 	case "resume":
 		sr.ResumeT = env.K.Now()
 		sr.Tr.Resume()
